@@ -539,8 +539,12 @@ def _work(item):
             if r["verdict"] in ("documented", "argument"):
                 hist[f"class:{r['name']}"] = hist.get(f"class:{r['name']}", 0) + 1
         k = finding_key(r, sure)
-        if k is not None and k not in bad:
-            bad[k] = (ex, label, {kk: r.get(kk) for kk in ("name", "msg", "verdict", "origin", "file", "func", "raised_in", "log", "outcome")})
+        if k is not None:
+            # clause (b) findings have no raise site: they are kept apart by the stream/corruption kind and the entry point
+            # (one known finding must not hide every other ill-formed call that returns a value)
+            dk = k + ((label, ex["fn"]) if k[0] in ("b-returned", "b-computed") else ())
+            if dk not in bad:
+                bad[dk] = (ex, label, {kk: r.get(kk) for kk in ("name", "msg", "verdict", "origin", "file", "func", "raised_in", "log", "outcome")})
 
     if kind == "strings":
         fns, n_cfg, label, strings, thin = payload
@@ -709,16 +713,39 @@ def probes():
         ({"fn": "id", "desc": "a, b -> (a + b + c)", "shapes": [(2,), (3,)]}, "concat"),
         # the zero-size shortcut of the *_at operations returns the first tensor before the description is looked at
         ({"fn": "set_at", "desc": "b [h] c, p [1], p c -> b [h] c )(", "shapes": [(2, 5, 3), (0, 1), (0, 3)], "dtypes": ["float64", "int64", "float64"]}, "zero-size-shortcut"),
+        # rank / repetition-count conflicts between an ellipsis, the tensor ranks and size keywords given for axes under
+        # the ellipsis (ill-formed by construction: the keyword tuple or another tensor fixes a count the rank contradicts)
+        ({"fn": "id", "desc": "b (s ds)... c -> b s... c ds...", "shapes": [(2, 8, 6, 3)], "kwargs": {"ds": (4, 2, 2)}}, "ellipsis-rank-kw", True),
+        ({"fn": "id", "desc": "b (s ds)... c -> b s... c ds...", "shapes": [(2, 8, 6, 4, 4, 3)], "kwargs": {"ds": (4, 2, 2)}}, "ellipsis-rank-kw", True),
+        ({"fn": "id", "desc": "b (s ds)... c -> b s... c ds...", "shapes": [(2, 8, 6, 3)], "kwargs": {"ds": (4,)}}, "ellipsis-rank-kw", True),
+        ({"fn": "sum", "desc": "a [s...]", "shapes": [(2, 3, 4)], "kwargs": {"s": (3,)}}, "ellipsis-rank-kw", True),
+        ({"fn": "sum", "desc": "a [(s t)...]", "shapes": [(2, 6, 4)], "kwargs": {"t": (2, 2, 2)}}, "ellipsis-rank-kw", True),
+        ({"fn": "id", "desc": "a s... -> s... a", "shapes": [(2, 3)], "kwargs": {"s": (3, 4)}}, "ellipsis-rank-kw", True),
+        ({"fn": "add", "desc": "a s..., s... b", "shapes": [(2, 3, 4), (3, 4, 5, 6)]}, "ellipsis-rank-two-tensors", True),
+        ({"fn": "add", "desc": "a (s t)..., s... b", "shapes": [(2, 6, 4), (3, 2, 5, 6)], "kwargs": {"t": 2}}, "ellipsis-rank-two-tensors", True),
+        ({"fn": "id", "desc": "a... b... -> b... a...", "shapes": [(2, 3)]}, "ellipsis-underdetermined", True),
+        ({"fn": "id", "desc": "(a b)... c... -> c... a... b...", "shapes": [(4, 6, 2)], "kwargs": {"b": 2}}, "ellipsis-underdetermined", True),
+        ({"fn": "solve_axes", "desc": "b (s ds)... c", "shapes": [(2, 8, 6, 3)], "kwargs": {"ds": (4, 2, 2)}}, "ellipsis-rank-kw", True),
+        ({"fn": "matches", "desc": "a... b...", "shapes": [(2, 3)], "kwargs": {"a": (2, 3, 4)}}, "ellipsis-rank-kw", False),
+        # implicit output of an elementwise operation: the input that contains all axes must be unique
+        ({"fn": "add", "desc": "a b, b a", "shapes": [(2, 3), (3, 2)]}, "implicit-output-ambiguous", True),
+        ({"fn": "multiply", "desc": "a b, (a b)", "shapes": [(2, 3), (6,)]}, "implicit-output-ambiguous", True),
+        ({"fn": "where", "desc": "a b, b a, a", "shapes": [(2, 3), (3, 2), (2,)], "dtypes": ["bool", "float64", "float64"]}, "implicit-output-ambiguous", True),
+        ({"fn": "add", "desc": "a b c, c b a, b", "shapes": [(2, 3, 4), (4, 3, 2), (3,)]}, "implicit-output-ambiguous", True),
+        ({"fn": "add", "desc": "a b, c", "shapes": [(2, 3), (4,)]}, "implicit-output-none", True),
         ({"fn": "solve_shapes", "desc": "a b, ", "shapes": [(2, 3)]}, "solve-count"),
         ({"fn": "solve_axes", "desc": "a -> b", "shapes": [(2,)]}, "solve-arrow"),
         ({"fn": "matches", "desc": "a -> b", "shapes": [(2,)]}, "solve-arrow"),
     ]
     out = []
-    for ex, label in P:
+    for item in P:
+        ex, label = item[0], item[1]
         ex.setdefault("kwargs", {})
         ex.setdefault("dtypes", ["float64"] * len(ex["shapes"]))
-        # the description of this probe has an unbalanced parenthesis: ill-formed by construction, clause (b) applies
-        out.append((ex, label == "zero-size-shortcut", "P:" + label))
+        # third component (or the zero-size probe, whose description has an unbalanced parenthesis): ill-formed by
+        # construction, clause (b) applies (the call must raise and must not compute)
+        sure = item[2] if len(item) > 2 else label == "zero-size-shortcut"
+        out.append((ex, sure, "P:" + label))
     # the C12 probes (parser extremes) through every stream-B entry point
     for s in c12.PROBES:
         for ex in examples_for_string(s, OPS_B + ["set_at"], 1):
@@ -977,8 +1004,9 @@ def run(ctx):
 
     # ---- report
     t2 = time.time()
-    for key in sorted(findings):
-        ex, label, info = findings[key]
+    for dkey in sorted(findings):
+        ex, label, info = findings[dkey]
+        key = dkey[:3]
         sure = key[0].startswith("b-re") or key[0] == "b-computed"
         small = shrink_example(ex, key, sure)
         r = run_example(small)
